@@ -1,6 +1,6 @@
 import ParryModel.C17.CutLemmas
 /-!
-# C17 property theorems, part 8 (fu5): the triangle loop (step 2) of `TriMesh::intersection_with_local_plane`
+# C17 helper lemmas (not property obligations; fu5): the triangle loop (step 2) of `TriMesh::intersection_with_local_plane`
 
 Model: `Model.Section.localSection` (CutModel.lean). `none` of the model = an `assert!` / `unreachable!()` / out-of-range access of
 the Rust routine. The only assertion that is specific to the section routine is `assert!(idx_a <= index_adjacencies.len())` in
@@ -550,22 +550,5 @@ theorem sinv_init (n : V3 K) (bias eps : K) (V0 : Array (V3 K)) :
   refine ⟨rfl, ⟨by intro k v h; simp at h, by intro k v h; simp at h, by intro k k' v h; simp at h⟩, ?_, ?_⟩
   · intro i j h; simp [AEdge] at h
   · intro i j h; simp [AEdge] at h
-
-/-- **C17 (plane section, totality)**: on a mesh whose triangles index existing vertices (open, closed, non-manifold, degenerate
-or repeated triangles) `intersection_with_local_plane` never reaches an `assert!` / `unreachable!()` / out-of-range access, for any
-plane and any `eps ≥ 0`: every triangle classifies into a handled feature pair, and `add_segment_adjacencies` is always called with
-`idx_a ≤ index_adjacencies.len()`. (Termination of the orientation walk: `orient_spec`, part 9.) -/
-theorem section_never_panics (verts : List (V3 K)) (tris : List Tri) (n : V3 K) (bias eps : K) (he : 0 ≤ eps)
-    (hv : validMesh verts.length tris = true) :
-    letI := fieldNum K sq
-    (Section.localSection verts tris n bias eps).isSome = true := by
-  letI : Num K := fieldNum K sq
-  obtain ⟨st, e, _⟩ := stepLoop_ok sq n bias eps he verts.toArray _ tris (colours_ok sq verts tris n bias eps hv)
-    ⟨#[], [], [], #[]⟩ (fun _ _ => True) (sinv_init sq n bias eps _) trivial (fun _ _ _ _ _ _ _ _ => trivial)
-  simp only [Section.localSection, hv, Bool.not_true, Bool.false_eq_true, if_false]
-  cases meshVerdict verts n bias eps with
-  | negative => rfl
-  | positive => rfl
-  | pair _ _ => simp only [e]; rfl
 
 end C17
